@@ -371,7 +371,8 @@ func runC02(p *Prog, r *Report, tier string) {
 		for _, call := range vc.calls("types.UsedNonceKey") {
 			n++
 			args := vc.args(call)
-			vc.teq("K-agree", "validate-key-order", strings.Join(args, ","), "p0.UsedNoncesList[#i0].Nonce,p0.UsedNoncesList[#i0].SourceDomain", p.instrPos(call))
+			// (the loop over the list may live in a new helper: counter #^i0)
+			vc.teq("K-agree", "validate-key-order", strings.ReplaceAll(strings.Join(args, ","), "#^i0", "#i0"), "p0.UsedNoncesList[#i0].Nonce,p0.UsedNoncesList[#i0].SourceDomain", p.instrPos(call))
 		}
 		r.check(n == 1, "K-agree", "K-agree/used-nonces/Validate-site", vc.pos(), "Validate derives the used-nonce key once", fmt.Sprintf("%d UsedNonceKey calls in Validate", n))
 	}
